@@ -138,7 +138,7 @@ class Transpose(nn.Module):
 
 
 def _t(v):
-    """MaxPool2d parameter: int or [h, w]"""
+    """MaxPool2d parameter: int, [h, w] or None (stride: the default)"""
     return tuple(v) if isinstance(v, (list, tuple)) else v
 
 
@@ -307,8 +307,10 @@ def gen_spec2d(rng, A, L, n_targets):
             kh, kw = rng.randint(1, min(3, C)), rng.randint(1, 3)
             if kh * kw == 1:
                 kw = 2
-            mp = ['max2', [kh, kw], [rng.randint(1, kh + 1), rng.randint(1, kw + 1)], [rng.randint(0, kh // 2), rng.randint(0, kw // 2)],
-                  rng.choice([1, [1, 1], [1, 1], [1, 2], [2, 1]]), rng.randint(0, 1)]
+            # the usual way of writing it: kernel (and stride) as pairs, padding / dilation left as the int defaults
+            mp = ['max2', [kh, kw], rng.choice([None, [rng.randint(1, kh + 1), rng.randint(1, kw + 1)], [rng.randint(1, kh + 1), rng.randint(1, kw + 1)]]),
+                  rng.choice([0, [rng.randint(0, kh // 2), rng.randint(0, kw // 2)]]),
+                  rng.choice([1, 1, 1, [1, 1], [1, 2], [2, 1]]), rng.randint(0, 1)]
         spec.append(mp)
         if rng.random() < 0.3:
             spec.append(['act', rng.choice(ACT_NAMES), rng.randint(0, 5)])
@@ -326,7 +328,9 @@ def gen_spec2d(rng, A, L, n_targets):
     raise RuntimeError('generator failed')
 
 
-def _pair(v):
+def _pair(v, default=None):
+    if v is None:
+        v = default
     return list(v) if isinstance(v, (list, tuple)) else [v, v]
 
 
@@ -334,7 +338,7 @@ def overlap_kind(spec):
     """classification of the input class, used for the finding key"""
     layers = list(flat_layers(spec))
     ov = [l for l in layers if l[0] == 'max' and (l[2] < l[1] or l[4] > 1)]
-    ov2 = [l for l in layers if l[0] == 'max2' and (any(s < k for s, k in zip(_pair(l[2]), _pair(l[1]))) or max(_pair(l[4])) > 1)]
+    ov2 = [l for l in layers if l[0] == 'max2' and (any(s < k for s, k in zip(_pair(l[2], l[1]), _pair(l[1]))) or max(_pair(l[4])) > 1)]
     if not ov and not ov2:
         return None
     return 'dilated' if any(l[4] > 1 for l in ov) or any(max(_pair(l[4])) > 1 for l in ov2) else 'overlap'
@@ -768,7 +772,7 @@ def run(rep):
         case = _new_case(rng, 'near', lambda r, A, L, nt: gen_spec(r, A, L, r.randint(2, 4), nt, maxpool='disjoint'), refs='near')
         _run_case(rep, case, ('near-net', k), sample=k < 1)
     # (2e) MaxPool2d with non-default parameters
-    for k in range(600 if thorough else 40):
+    for k in range(800 if thorough else 60):
         case = _new_case(rng, 'pool2d', gen_spec2d, nest=0.0)
         _run_case(rep, case, ('pool2d', k), sample=k < 1)
     # (2f) nested containers
